@@ -89,13 +89,16 @@ def make_natives(state, sym):
         c = deref(args[0])
         items, a, b = models.as_list(args[1])
         c.fields[1].extend(text_of(m, x) for x in items[a:b])
+        state["nfixed"] = len(c.fields[1])
         return Ok(args[0])
 
     def am_try_arg(m, args):
         c = deref(args[0])
         k = state["ntry"]
         state["ntry"] += 1
-        fits = m.decide(sym["fits"][k]) if k < len(sym["fits"]) else True
+        # assumption: a single path always fits into a fresh command line (PATH_MAX is far below any ARG_MAX)
+        fresh = len(c.fields[1]) == state.get("nfixed", 0)        # no path in this command yet
+        fits = True if fresh else (m.decide(sym["fits"][k]) if k < len(sym["fits"]) else True)
         state["verdicts"].append(fits)
         if not fits:
             return Err(Opaque("E2BIG"))
